@@ -88,8 +88,10 @@ def derivative(expr: e.Expr, t_string: str):
             obj = obj.tensors
             assert len(obj) == 1
             obj = obj[0]
+            # x stands for the tensor itself, not for the tensor raised to
+            # its exponent -> substitute the base of the object
             symmetrized_deriv_contrib = (
-                symmetrized_deriv_contrib.subs(x, obj)
+                symmetrized_deriv_contrib.subs(x, obj.base)
             )
             # - sort the derivative according to the space of the minimal
             #   tensor indices
